@@ -836,6 +836,7 @@ func main() {
 	probes(e)
 	floatProbes(e)
 	identityFreshness(e)
+	compareExtremes(e)
 	for i := 0; i < *n; i++ {
 		genCase(r, e)
 	}
